@@ -1,4 +1,5 @@
 pub mod calendar;
+pub mod cron_spec;
 pub mod fmt_spec;
 pub mod instant;
 pub mod pattern_gen;
